@@ -396,7 +396,7 @@ func GetWantedValue(newValue reflect.Value, toKind reflect.Type) (reflect.Value,
 	case reflect.Int32:
 		return reflect.ValueOf(int32(newValue.Int())), nil
 	case reflect.Int64:
-		return newValue, nil
+		return reflect.ValueOf(newValue.Int()), nil
 
 	case reflect.Uint:
 		return reflect.ValueOf(uint(newValue.Uint())), nil
@@ -407,12 +407,12 @@ func GetWantedValue(newValue reflect.Value, toKind reflect.Type) (reflect.Value,
 	case reflect.Uint32:
 		return reflect.ValueOf(uint32(newValue.Uint())), nil
 	case reflect.Uint64:
-		return newValue, nil
+		return reflect.ValueOf(newValue.Uint()), nil
 
 	case reflect.Float32:
 		return reflect.ValueOf(float32(newValue.Float())), nil
 	case reflect.Float64:
-		return newValue, nil
+		return reflect.ValueOf(newValue.Float()), nil
 	}
 
 	return newValue, nil
